@@ -4,6 +4,7 @@ spec/Cluster.tla (owner function, entry nodes, API paths; switch PathOwner), Clu
 Harness: cmd/route (real Dataset write paths; every partition on its own scripted node)."""
 import json
 
+import clusfam
 import vlib
 
 
@@ -55,7 +56,25 @@ def run(ctx):
     ctx.cov["binding_selftest"].update(st)
     if not all(st.values()):
         raise vlib.NoVerdict("binding self-test failed: %s" % st)
-    ctx.cov["traces_validated_against_impl"] = n
+    # the partition list a dataset was created with is what routing indexes into: on real server
+    # processes it must keep its order through descriptor reads, log compaction, snapshot restore
+    # and restart (ClusterViewTrace: PartitionOrderChanged)
+    ctrace, res = clusfam.run_scenarios(ctx, 1 if quick else 4, ["snapshot", "lagging"])
+    cv, cn = vlib.validate_trace(ctx, "ClusterViewTrace", "ClusterViewTrace.cfg", ctrace, lambda l: l.startswith('{"ev":"scenario"'), chunk_events=100000)
+    clines = open(ctrace).read().splitlines()
+    byk = {}
+    for v in cv:
+        if v[1] != "PartitionOrderChanged":
+            continue
+        e = json.loads(clines[v[0]])
+        byk.setdefault("PartitionOrderChanged@%s" % e.get("after", ""), []).append(e)
+    for sig in sorted(byk):
+        e = byk[sig][0]
+        ctx.finding(sig, "%s: node %s lists a dataset's partitions in another order than the dataset was created with (%d such views): %s"
+                    % (sig, e.get("node"), len(byk[sig]), json.dumps(e["datasets"])[:400]), {"event": e})
+    ctx.log("%d real-cluster scenarios (descriptor reads, snapshot, restart): %d views, %d partition-order failures"
+            % (len(res), sum(1 for x in clines if '"ev":"view"' in x), sum(len(x) for x in byk.values())))
+    ctx.cov["traces_validated_against_impl"] = n + len(res)
     ctx.assumptions += ["'for all 128-bit ids and partition counts up to 1024' is arithmetic on one pure function beyond TLC's integers: covered for partition counts 1,2,3,7,16 and ids spanning the extremes of both 64-bit halves plus seeded random ids only",
                         "forwarded single-item requests are observed at scripted owners; the owner re-routes with the same function"]
     return "model_checking"
